@@ -133,7 +133,11 @@ def judge(version, kinds, rev, cuts, part):
         fed = 0
         bad = None
         for ch in connlib.chunks(data, cuts):
-            conn.feed(ch)
+            try:
+                connlib.guarded_feed(conn, ch)
+            except connlib.Livelock as e:
+                bad = ('livelock', 'after %d bytes had been handed over, the next read of %d bytes never returned: %s' % (fed, len(ch), e))
+                break
             fed += len(ch)
             done = sum(1 for e in ends if e <= fed)
             if conn.is_defunct or conn.is_closed:
